@@ -239,7 +239,7 @@ def run(ctx, focus, theorems, refuted, monitors, nrandom=(150, 1500), per_config
     """monitors(hist, obs, nwf, keys) -> list of (coq bool expr, step index, kind, tags)"""
     ctx.cov["trusted_base"] = vf.TRUSTED_COMMON + [
         "harness fakes: client-go fake clientsets as the API server (pods/binding: NotFound if the pod is gone, conflict on another "
-        "UID or an already assigned pod), harness-owned listers as the informer caches (updated only by explicit informer steps, so "
+        "UID or an already assigned pod; FloatingIP reads with resourceVersion 0 answered from a watch cache one step behind), harness-owned listers as the informer caches (updated only by explicit informer steps, so "
         "every lag is explored), recording cloud provider with scripted clean failures, verif-tag hooks for unbind / one resync "
         "item / pod-IP sync / event queue / reload (repo commit fe2ed3a)",
         "section atomicity (DESIGN.md section 5): one history item = one region under the pod lock; interleavings of real "
